@@ -32,7 +32,9 @@ JudgeSx(e) ==
       specAccepts == SelectSeq(e.sample, LAMBDA c : ValidC(c) /\ SxParse(Corr(c)).ok)
       realAccepts == SelectSeq(e.sample, LAMBDA c : c.kind # "error")
       triedOk == e.ntried = (n - 6) * 127 /\ e.sample # <<>>
-      genbug == ~inDom \/ nInvalid > 0 \/ ~triedOk \/ (bytesOk /\ specAccepts # <<>>)
+      \* bookkeeping of the harness is only meaningful (and only checked) when the built bytes are the expected ones;
+      \* wrong bytes are a violation by themselves (bytesOk), never a generator problem
+      genbug == ~inDom \/ (bytesOk /\ (nInvalid > 0 \/ ~triedOk \/ specAccepts # <<>>))
   IN [ok |-> ~genbug /\ bytesOk /\ sumOk /\ specReads /\ realReads /\ e.noterr = <<>> /\ realAccepts = <<>>,
       info |-> [id |-> e.id, ev |-> "sx", genbug |-> genbug, inDom |-> inDom, invalidCorruptions |-> nInvalid, triedOk |-> triedOk,
                 specAcceptsSample |-> Len(specAccepts), bytesOk |-> bytesOk, sumOk |-> sumOk, specReads |-> specReads,
